@@ -102,7 +102,10 @@ def gen_plan(seed, tier):
                       for _ in range(cfg["ncon"])]
     for i in range(r.randint(2, 10)):
       steps.append({"con": r.randrange(cfg["ncon"]),
-                    "n": r.pick([8, 9, 40, 200, 1500, 4095, 4096, 4097, 6000]),
+                    # (4096 = the deferred sender's slice size: exact
+                    # multiples and their neighbours)
+                    "n": r.pick([8, 9, 40, 200, 1500, 4095, 4096, 4097, 6000,
+                                 8191, 8192, 8193, 12288, 16384]),
                     "gap": r.pick([0, 0, 0, 1])})
   else:
     cfg["script"] = _script(r, r.randint(0, 10), fatal_ok=r.chance(0.3))
